@@ -34,6 +34,7 @@ def run(index, rep):
     rep.guard(mul, food, rep, index)
     rep.guard(lanes, constructions, food, uc, rep)
     rep.guard(purity, food, rep)
+    rep.guard(label_list_purity, food, uc, rep)
     rep.guard(guards, food, rep)
     rep.guard(predicates, food, rep, index)
     rep.guard(minimum_rule, index, rep)
@@ -731,6 +732,65 @@ VIEW_CALLS = ("np.asarray", "np.asanyarray", "np.ascontiguousarray", "np.asfarra
               "np.transpose", "np.atleast_1d", "np.atleast_2d", "np.expand_dims", "np.flip", "np.flipud", "np.fliplr", "np.diagonal",
               "np.broadcast_to", "np.swapaxes", "np.moveaxis", "np.nan_to_num_inplace", "numpy.asarray", "memoryview")
 VIEW_METHODS = ("view", "reshape", "ravel", "squeeze", "transpose", "swapaxes", "astype_view", "diagonal")
+
+
+def label_list_purity(food, uc, rep):
+    """the combined label list (self.units) of a quantity is changed by the label setters only: no other method of Food / UnitConversions
+    changes it in place - itself, through a local that is the same list, or by handing it to a routine that changes the list it is given
+    (followed through the methods of the two classes)"""
+    rule = "C11.PURE"
+    from .c13 import param_mutations
+    from .core import bind_args
+    methods = dict(uc)
+    methods.update(food)
+    memo = {}
+
+    def mutates(fn, param, depth=0):
+        key = (fn.name, param)
+        if key in memo:
+            return memo[key]
+        memo[key] = []
+        out = [f"{fn.name}: {m_}" for m_ in param_mutations(fn, param)]
+        alias = {param} | {st.targets[0].id for st in walk_no_nested(fn) if isinstance(st, ast.Assign) and len(st.targets) == 1
+                           and isinstance(st.targets[0], ast.Name) and isinstance(st.value, ast.Name) and st.value.id == param}
+        if depth < 4:
+            for c in walk_no_nested(fn):
+                if isinstance(c, ast.Call) and isinstance(c.func, ast.Attribute) and isinstance(c.func.value, ast.Name) \
+                        and c.func.value.id in ("self", "UnitConversions", "Food") and c.func.attr in methods and methods[c.func.attr] is not fn:
+                    g = methods[c.func.attr]
+                    static = any(isinstance(d_, ast.Name) and d_.id == "staticmethod" for d_ in g.decorator_list)
+                    for p_, a_ in bind_args(c, g, method=not static).items():
+                        if isinstance(a_, ast.Name) and a_.id in alias:
+                            out += mutates(g, p_, depth + 1)
+        memo[key] = out
+        return out
+
+    n = 0
+    for name, fn in methods.items():
+        if name in MUTATORS:
+            continue
+        # locals that are the label list itself
+        alias = {st.targets[0].id for st in walk_no_nested(fn) if isinstance(st, ast.Assign) and len(st.targets) == 1
+                 and isinstance(st.targets[0], ast.Name) and _is_self_attr(st.value, ("units",))}
+        bad = []
+        for c in walk_no_nested(fn):
+            if isinstance(c, ast.Call) and isinstance(c.func, ast.Attribute) and isinstance(c.func.value, ast.Name) \
+                    and c.func.value.id in ("self", "UnitConversions", "Food") and c.func.attr in methods and methods[c.func.attr] is not fn:
+                g = methods[c.func.attr]
+                static = any(isinstance(d_, ast.Name) and d_.id == "staticmethod" for d_ in g.decorator_list)
+                for p_, a_ in bind_args(c, g, method=not static).items():
+                    if (isinstance(a_, ast.Name) and a_.id in alias) or _is_self_attr(a_, ("units",)):
+                        bad += mutates(g, p_)
+        for a_ in alias:
+            bad += [m_ for m_ in param_mutations(fn, a_)]
+        if alias or bad:
+            n += 1
+            rep.check(not bad, rule, f"{name}: label list handed on is not changed in place",
+                      "the quantity's own combined label list is changed in place by a routine it is handed to (" + "; ".join(sorted(set(bad))[:3]) +
+                      "): converting a quantity relabels the operand itself, and its list no longer agrees with its three labels",
+                      loc=loc(UC if name in uc else FOOD, fn))
+    if n == 0:
+        rep.info(rule, "no method reads the combined label list into a local or hands it on")
 
 
 def purity(food, rep):
